@@ -11,5 +11,5 @@ for u in units:
         os.remove(lp)
     un = T.Unit(tp, repo='/repo')
     un.build()
-    json.dump(dict(raw=un.binders_raw, after_rules=un.binders, params=un.params), open(lp, 'w'), indent=1, sort_keys=True)
+    json.dump(dict(raw=un.binders_raw, after_rules=un.binders, params=un.params, closures=un.closure_ord), open(lp, 'w'), indent=1, sort_keys=True)
     print(u, len(un.binders), 'functions')
